@@ -155,4 +155,18 @@ Proof.
   apply IH; [intros x Hx; apply Hl; now right|exact H1].
 Qed.
 
+(* the IF direction, for EVERY state: when the poller's own read of a timer's run answers with a run that has left the status or is
+   finished (Completed, Cancelled, awaiting or past data deletion — the "stopped" guard comes only afterwards), what the poller does
+   for that timeout configuration is exactly the Cancel of that timer: no function is invoked, nothing else is called *)
+Theorem poller_cancels_moved inst u n tc tl j t s r s1 :
+  to_status tc = st -> p_lookup (t_run t) s = (Ok (Some r), s1) ->
+  (r_status r <> st \/ rs_finished (r_state r) = true) ->
+  process_timeouts c inst u st n (tc :: tl) j t s = p_tcancel (t_id t) s1.
+Proof.
+  intros Hst Hl Hm. cbn [process_timeouts]. rewrite Hst, Z.eqb_refl. cbn [negb]. unfold bind at 1. rewrite Hl.
+  assert (E : negb (r_status r =? st) || rs_finished (r_state r) = true).
+  { destruct Hm as [Hm|Hm]; [apply Z.eqb_neq in Hm; rewrite Hm; reflexivity|rewrite Hm; apply Bool.orb_true_r]. }
+  rewrite E. reflexivity.
+Qed.
+
 End Poll.
